@@ -407,7 +407,7 @@ def servedStatic (cr : CRoute) (req : Req) : Obs :=
 
 /-- `serveCompiledRouteWithParams` -/
 def servedDynamic (cr : CRoute) (e : Extract) (req : Req) : Obs :=
-  served ⟨cr.rid, [], cr.pattern⟩ ⟨e.slots, e.over⟩ req
+  served ⟨cr.rid, [], cr.pattern, []⟩ ⟨e.slots, e.over⟩ req
 
 /-- `serveStaticRoute(handlers, path, …)`: hit in the per-tree table, the pattern reported is the path -/
 def servedTable (lf : Leaf) (path : Bytes) (req : Req) : Obs :=
